@@ -60,5 +60,6 @@ for _p, _name, _bound, _f in (
         ('C18', 'PreambleDetector after reset()', 'one 31-sample Zadoff-Chu preamble, a loud previous stream, a quiet stream and a stream with the preamble', replays3.detector_reset),
         ('C19', 'rng(seed) replays the stream on the real <random>, whatever was drawn before', 'odd and even block lengths, two threads', replays3.random_streams),
         ('C19', 'snr / sinad / thd do not depend on the scale of the signal', 'one tone set, levels 1..1e-9', replays3.snr_scale_invariance),
+        ('C05', 'snr / sinad / thd of signals without power run into no undefined behaviour', 'all-zero and constant signals of 16, 64, 100 samples (outside the contracts: their precondition is a spectrum with a positive bin)', replays3.snr_degenerate_inputs),
         ('C20', 'compressor attack follows the configured time constant', 'fs = 1000, time constants including non-integer sample counts', replays3.dynamics_time_constants)):
     STANDINS.setdefault(_p, []).append((_name, _bound, _f(_O)))
